@@ -61,7 +61,8 @@ def ticks(seconds: float) -> int:
 class Vncdo:
     """one run of `vncdo [options] words...`"""
 
-    def __init__(self, words, delay=0, warp=1.0, timeout=None, force_caps=False, incremental=False, nocursor=False, password=None, cwd=None):
+    def __init__(self, words, delay=0, warp=1.0, timeout=None, force_caps=False, incremental=False, nocursor=False, password=None, cwd=None,
+                 localcursor=False, no_desktop_resize=False):
         self.reactor = FakeReactor()
         self.trace = []
         self.connects = []
@@ -74,6 +75,10 @@ class Vncdo:
             argv.append("--incremental-refreshes")
         if nocursor:
             argv.append("--nocursor")
+        if localcursor:
+            argv.append("--localcursor")
+        if no_desktop_resize:
+            argv.append("--disable-desktop-resizing")
         if password is not None:
             argv += ["--password", password]
         argv += list(words)
